@@ -47,12 +47,18 @@ package wire
 //@ typeassume ClientConn: !ackKeyed(self.msgUpstreamCallAckCh) && !replyKeyed(self.msgDownstreamCallCh)   // inbox queues are not keyed reply channels (C16)
 
 //@ func (*ClientConn).sendRequest
-//@   props C06 C15
+//@   props C06 C15 C05
 //@   nopanic
 //@   requires req != nil && c.transport != nil && c.ctx != nil && ctx != nil
 //@   makechan 1 assume keyed(ch) && chkey(ch) == reqid(req)
 //@   assert call Write: has(c.replyCh, reqid(req)) && unheld(c.mu)   // registered before the request can be answered
 //@   ensures imp(result1 == nil, result0 != nil && reqid(result0) == reqid(req))
+// C05: once the request was written, the only failures are the caller's own context and
+// "connection closed" - the error the retry wrapper Conn.send recognises and answers by waiting for
+// the reconnect and issuing the request again
+//@   ghostvar wrote bool = false
+//@   after call Write: wrote = (res0 == nil)
+//@   ensures[C05] imp(result1 != nil && wrote && !done(ctx), result1 == errors.ErrConnectionClosed)
 
 //@ func (*ClientConn).readRequestLoop
 //@   props C06 C15
